@@ -69,7 +69,7 @@ def run(ctx):
             "a callback fired by the teardown starts a new request/connection on the closing client")
 
     # ---- R2 every broker client closed and awaited
-    r = ctx.rule("R2", "all broker clients are closed; the returned Deferred aggregates every close (and earlier aggregates)", 4, "A+C")
+    r = ctx.rule("R2", "all broker clients are closed; the returned Deferred aggregates every close (and earlier aggregates)", 7, "A+C")
     sw = [n for n in cf.nodes if node_assign_value(n, "clients") is not None]
     call = [c for c in calls_in(close, cbc.name)]
     ok = len(sw) == 1 and len(call) == 1 and isinstance(sw[0].stmt.targets[0], ast.Tuple)
@@ -78,6 +78,11 @@ def run(ctx):
         ok = bool(local) and norm(call[0].args[0]) == "%s.values()" % local[0]
     r.check(ok, "%s#closes-all-clients" % close.qname, "close() does not hand every broker client to the closer", where(close, close.node),
             "a broker connection survives close()")
+    newv = [norm(v) for t, v in zip(sw[0].stmt.targets[0].elts, sw[0].stmt.value.elts) if self_attr(t) == "clients"] if ok else []
+    r.check(newv == ["None"], "%s#client-map-poisoned" % close.qname,
+            "close() replaces the client map by %s instead of None" % newv, where(close, close.node),
+            "a reply to a request still in flight on a bootstrap connection arrives after close(): with a usable map _update_brokers no "
+            "longer fails, the reply is merged and the caches are repopulated; the pending load fires True after close")
     rets = [x for x in walk_body_shallow(close.body) if isinstance(x, ast.Return)]
     r.check(len(rets) == 1 and norm(rets[0].value).startswith("self.close_dlist or ") and cf.dominates(
         [cf.containing(call[0])[0].id], cf.node_of(rets[0]).id) if call else False, "%s#returns-aggregate" % close.qname,
@@ -248,6 +253,8 @@ MUTANTS = [
     {"id": "aggregate-reset-unconditional", "file": "client.py",
      "old": "            if close_dlist == self.close_dlist:\n                self.close_dlist = None", "new": "            self.close_dlist = None",
      "expect": "C20.R2", "note": "seeded C20-1"},
+    {"id": "client-map-left-usable", "file": "client.py", "old": "        brokerclients, self.clients = self.clients, None",
+     "new": "        brokerclients, self.clients = self.clients, {}", "expect": "C20.R2", "note": "seeded C20-5"},
     {"id": "poison-last", "file": "client.py",
      "old": "        self._closing = True\n        # Close down any clients we have\n        brokerclients, self.clients = self.clients, None\n        self._close_brokerclients(brokerclients.values())\n",
      "new": "        # Close down any clients we have\n        brokerclients, self.clients = self.clients, None\n        self._close_brokerclients(brokerclients.values())\n        self._closing = True\n",
